@@ -264,6 +264,31 @@ func BuildLayout(spec *ModSpec) *Layout {
 		t := l.Funcs[j].Type
 		add(fmt.Sprintf("ci%d", j), t.Params, t.Results, "ci", j, 0)
 	}
+	// call-then-read wrappers: the imported function may grow / write the shared object, and the caller looks at
+	// it again IN THE SAME FUNCTION (whatever the caller's code cached across the call must have been refreshed)
+	cg := -1
+	for i, g := range l.Globals {
+		if g.Mutable && g.Type != wenc.FuncRef {
+			cg = i
+			break
+		}
+	}
+	cat := func(a []wenc.ValType, b ...wenc.ValType) []wenc.ValType {
+		return append(append([]wenc.ValType{}, a...), b...)
+	}
+	for j := 0; j < l.NImpF; j++ {
+		t := l.Funcs[j].Type
+		if l.HasMem {
+			add(fmt.Sprintf("cim%d", j), cat(t.Params, wenc.I32, wenc.I32), cat(t.Results, wenc.I32, wenc.I32, wenc.I32), "cim", j, 0)
+		}
+		if cg >= 0 {
+			gt := l.Globals[cg].Type
+			add(fmt.Sprintf("cig%d", j), t.Params, cat(t.Results, gt, gt), "cig", j, cg)
+		}
+		if ft0 >= 0 {
+			add(fmt.Sprintf("cit%d", j), cat(t.Params, wenc.I32), cat(t.Results, wenc.I32, wenc.I32, wenc.I32), "cit", j, ft0)
+		}
+	}
 	l.finish(spec)
 	return l
 }
@@ -356,6 +381,7 @@ func Build(spec *ModSpec) ([]byte, *Layout) {
 		c := &wenc.Code{}
 		s := f.Sem
 		A, B := uint32(s.A), uint32(s.B)
+		var locals []wenc.ValType
 		switch s.Op {
 		case "leaf0":
 			c.LocalGet(0).I32Const(leafConst(spec.ID, 0)).Op(0x6a)
@@ -439,6 +465,31 @@ func Build(spec *ModSpec) ([]byte, *Layout) {
 				c.LocalGet(uint32(p))
 			}
 			c.Call(A)
+		case "cim":
+			np := uint32(len(f.Type.Params))
+			locals = []wenc.ValType{wenc.I32}
+			// (params..., a1, a2): load a1, call, load a2, memory.size
+			c.LocalGet(np-2).Mem(0x2d, 0, 0).LocalSet(np)
+			for p := uint32(0); p < np-2; p++ {
+				c.LocalGet(p)
+			}
+			c.Call(A).LocalGet(np).LocalGet(np-1).Mem(0x2d, 0, 0).MemorySize()
+		case "cig":
+			np := uint32(len(f.Type.Params))
+			locals = []wenc.ValType{l.Globals[s.B].Type}
+			c.GlobalGet(B).LocalSet(np)
+			for p := uint32(0); p < np; p++ {
+				c.LocalGet(p)
+			}
+			c.Call(A).LocalGet(np).GlobalGet(B)
+		case "cit":
+			np := uint32(len(f.Type.Params))
+			locals = []wenc.ValType{wenc.I32}
+			c.Prefixed(0xfc, 16).U32(B).LocalSet(np)
+			for p := uint32(0); p < np-1; p++ {
+				c.LocalGet(p)
+			}
+			c.Call(A).LocalGet(np).Prefixed(0xfc, 16).U32(B).LocalGet(np - 1).TableGet(B).RefIsNull()
 		case "start":
 			for _, a := range spec.Start.Acts {
 				switch a.Kind {
@@ -464,7 +515,7 @@ func Build(spec *ModSpec) ([]byte, *Layout) {
 			panic("unknown sem " + s.Op)
 		}
 		c.End()
-		idx := m.AddFunc(f.Type.Params, f.Type.Results, nil, c.B)
+		idx := m.AddFunc(f.Type.Params, f.Type.Results, locals, c.B)
 		if int(idx) != i {
 			panic(fmt.Sprintf("function index mismatch %d != %d", idx, i))
 		}
